@@ -200,24 +200,15 @@ class SolverWrapper:
                 self.solver.update()
 
             elif self.external_solver == "highs":
-                # HiGHS batched updates
-                import numpy as np  # local alias to ensure available
-                if self._pending_fix_vars:
-                    idxs = np.array([v.index for v in self._pending_fix_vars], dtype=np.int32)
-                    vals = np.array(self._pending_fix_vals, dtype=np.float64)
-                    self.solver.changeColsBounds(len(idxs), idxs, vals, vals)
-                if self._pending_lb_vars:
-                    idxs = np.array([v.index for v in self._pending_lb_vars], dtype=np.int32)
-                    lbs  = np.array(self._pending_lb_vals, dtype=np.float64)
-                    # Prefer dedicated lower bound update if available, else fall back to bounds change with UB unchanged
-                    if hasattr(self.solver, "changeColsLower"):
-                        self.solver.changeColsLower(len(idxs), idxs, lbs)
-                    else:
-                        # As a conservative fallback, raise LB via changeColsBounds using current UBs fetched via getCols
-                        status, nret, lowers, uppers, costs, nnz = self.solver.getCols(len(idxs), idxs)
-                        # Use returned uppers in the same order as idxs
-                        current_ubs = uppers.astype(np.float64, copy=False)
-                        self.solver.changeColsBounds(len(idxs), idxs, lbs, current_ubs)
+                # HiGHS: apply the queued requests one column at a time, in queue order.
+                # The batched calls silently drop updates whose index set is unsorted
+                # (getCols) or contains a column twice (changeColsBounds).
+                for v, val in zip(self._pending_fix_vars, self._pending_fix_vals):
+                    self.solver.changeColBounds(v.index, val, val)
+                for v, lb in zip(self._pending_lb_vars, self._pending_lb_vals):
+                    # raise the lower bound, keep the column's current upper bound
+                    _, _, _, current_ub, _ = self.solver.getCol(v.index)
+                    self.solver.changeColBounds(v.index, lb, current_ub)
 
         finally:
             # Clear queues regardless of success
